@@ -1,6 +1,8 @@
 package openapi
 
 import (
+	"fmt"
+
 	"github.com/jsightapi/jsight-api-core/catalog"
 )
 
@@ -15,6 +17,14 @@ type OpenAPI struct {
 }
 
 func NewOpenAPI(c *catalog.Catalog) (oa *OpenAPI, err Error) {
+	// the schema conversion of jsight-schema-core panics on what OpenAPI cannot express
+	// (e.g. additionalProperties: "decimal", an enum inside "or"), and so do the helpers here
+	defer func() {
+		if r := recover(); r != nil {
+			oa, err = nil, newErr(fmt.Sprintf("OpenAPI export failed: %v", r))
+		}
+	}()
+
 	paths, err := newPaths(c)
 	if err != nil {
 		return nil, err
